@@ -13,17 +13,20 @@ def wf_map_term(m):
     """Well-formedness of a dict value: the key sequence is duplicate-free and agrees with the domain."""
     k = m.kind
     keys, dom = k.keys(m.term), k.dom(m.term)
+    ks = Seq(k.key)
     idx = z3.Function(f"map_idx<{k!r}>", k.sort(), k.key.sort(), z3.IntSort())
     x = z3.Const(fresh_name("wk"), k.key.sort())
     i = z3.Const(fresh_name("wi"), z3.IntSort())
     j = z3.Const(fresh_name("wj"), z3.IntSort())
-    n = z3.Length(keys)
+    n = ks.len(keys)
+    at = lambda q: ks.at(keys, q)
     return z3.And(
-        z3.ForAll([i], z3.Implies(z3.And(0 <= i, i < n), z3.Select(dom, keys[i])), patterns=[keys[i]]),
+        n >= 0,
+        z3.ForAll([i], z3.Implies(z3.And(0 <= i, i < n), z3.Select(dom, at(i))), patterns=[at(i)]),
         z3.ForAll([x], z3.Implies(z3.Select(dom, x), z3.And(0 <= idx(m.term, x), idx(m.term, x) < n,
-                                                            keys[idx(m.term, x)] == x)),
+                                                            at(idx(m.term, x)) == x)),
                   patterns=[z3.Select(dom, x)]),
-        z3.ForAll([i, j], z3.Implies(z3.And(0 <= i, i < j, j < n), keys[i] != keys[j]), patterns=[z3.MultiPattern(keys[i], keys[j])]),
+        z3.ForAll([i, j], z3.Implies(z3.And(0 <= i, i < j, j < n), at(i) != at(j)), patterns=[z3.MultiPattern(at(i), at(j))]),
     )
 
 
